@@ -11,6 +11,7 @@ import (
 	"runtime/debug"
 	"sync"
 	"testing"
+	"time"
 
 	am "github.com/hashicorp/go-argmapper"
 	"github.com/hashicorp/go-argmapper/internal/graph"
@@ -449,5 +450,27 @@ func TestF21_DijkstraInt32(t *testing.T) {
 	topo, _ := g.TopoShortestPath(g.KahnSort())
 	if topo["b"] != dist["b"] {
 		t.Fatalf("TopoShortestPath %d and Dijkstra %d disagree", topo["b"], dist["b"])
+	}
+}
+
+type f22P *f22P
+
+// F22 (C14): NewFunc never returned for a parameter whose type is a pointer defined in terms of itself.
+func TestF22_SelfReferentialPointerType(t *testing.T) {
+	done := make(chan error, 1)
+	go func() {
+		f, err := am.NewFunc(func(f22P) {})
+		if err == nil && len(f.Input().Values()) != 1 {
+			err = fmt.Errorf("values: %v", f.Input().Values())
+		}
+		done <- err
+	}()
+	select {
+	case err := <-done:
+		if err != nil {
+			t.Fatal(err)
+		}
+	case <-time.After(3 * time.Second):
+		t.Fatal("NewFunc(func(P)) with type P *P did not return")
 	}
 }
